@@ -282,6 +282,10 @@ impl GenState {
             Extend => {
                 st.vals = vals!(rng, len_arg(rng, free, n));
                 st.b = rng.below(6) as usize;
+                if rng.below(5) == 0 {
+                    // as one half of a pair (tuple `Extend`)
+                    st.c = 3;
+                }
             }
             MakeContiguous => {
                 st.a = rng.below(8) as usize;
